@@ -578,7 +578,7 @@ class AbstractWorker:
         if self.is_apply_func:
             func_args, func_kwargs = args
         else:
-            func_args = args[1] if args and self.worker_comms.keep_order() else args
+            func_args = args[1] if args is not None and self.worker_comms.keep_order() else args
             func_kwargs = None
 
         func_args, func_kwargs = self._convert_args_kwargs(func_args, func_kwargs)
